@@ -1,7 +1,67 @@
-import Driver.Proto
+import Driver.SC07
+import GbVerif.Spec.CoreSpec
 namespace Driver
+open GbVerif GbVerif.Core
 
-/-- C08 correspondence (stub) -/
-def checkC08 (l : Line) : Verdict := .bad s!"stream {l.stream} not implemented"
+def alpha : List (List Nat) := [[0xfb], [0xf3], [0xd9], [0x76], [0x10, 0x00], [0x00], [0xe0, 0x0f], [0xe0, 0xff]]
+
+/-- devices without time: valid for the short c08 runs (no device raises a request within them) -/
+def noTimeDev : Dev := fun b _ => .ok b
+
+/-- C08 (+ the instruction-stepped part of C09): replay a sequence on the model and on the step spec -/
+def checkC08 (l : Line) : Verdict := Id.run do
+  let seq := parseNatList (l.inS "seq")
+  let rom := fun i => if i < 0x100 then 0 else romByte i
+  let mut b := Bus.create .mbc1 4 32768 rom
+  let code := seq.foldl (fun acc k => acc ++ alpha.getD k []) []
+  let mut addr := 0xc000
+  for byte in code do
+    match Bus.write b addr byte with | .ok b' => b := b' | .error _ => return .bad "setup"
+    addr := addr + 1
+  let mut sp := 0xdff0
+  for _ in [0:8] do
+    match Bus.write b sp 0x00 with | .ok b' => b := b' | .error _ => return .bad "setup"
+    match Bus.write b (sp + 1) 0xc1 with | .ok b' => b := b' | .error _ => return .bad "setup"
+    sp := sp + 2
+  b := { b with io := { b.io with ifl := l.inN "if", ie := l.inN "ie" } }
+  let a := l.inN "a"
+  let mut cm : State := { regs := { af := a * 256, sp := 0xdff0, ip := 0xc000 }, bus := b, ime := imeOf (l.inN "ime"), run := runOf (l.inN "run") }
+  let mut cs : CoreSpec.S := { cpu := { a := a, sp := 0xdff0, pc := 0xc000 }, bus := b, ime := imeOf (l.inN "ime"), run := runOf (l.inN "run") }
+  let mut specOn := true
+  let mut k := 0
+  let mut nontrivial := false
+  for stepS in (l.outS "t").splitOn ";" do
+    let obs := parseNatList stepS
+    let g (i : Nat) := obs.getD i 0
+    -- spec
+    if specOn then
+      let pend := cs.bus.io.ifl &&& cs.bus.io.ie
+      if cs.run == .Run && busRd cs.bus cs.cpu.pc == 0x76 && pend != 0 then
+        specOn := false         -- HALT with an enabled interrupt already pending: excluded by the property
+      else
+        match CoreSpec.step cs with
+        | .ok (some s') =>
+          cs := s'
+          let exp := [imeCode s'.ime, runCode s'.run, s'.cpu.pc, s'.cpu.sp, s'.bus.io.ifl, busRd s'.bus 0xffff]
+          let names := ["IME", "run state", "PC", "SP", "IF", "IE"]
+          for i in [0:6] do
+            if g i != exp.getD i 0 then
+              return .specDiff s!"step {k}: {names.getD i ""} impl={g i} spec={exp.getD i 0}"
+          let due := 4 * (s'.charged - (if s'.dispatched then 5 else 0))
+          if g 6 != due % 65536 then
+            return .specDiff s!"step {k}: devices received {g 6} clocks in total, 4 x machine cycles consumed = {due}"
+          if s'.dispatched || s'.run != .Run then nontrivial := true
+        | .ok none => specOn := false
+        | .error _ => specOn := false
+    -- model
+    match update noTimeDev cm with
+    | .error _ => return .modelDiff s!"step {k}: model panics"
+    | .ok c' =>
+      cm := c'
+      let got := [imeCode c'.ime, runCode c'.run, c'.regs.ip, c'.regs.sp, c'.bus.io.ifl, busRd c'.bus 0xffff, c'.delivered % 65536]
+      for i in [0:7] do
+        if g i != got.getD i 0 then return .modelDiff s!"step {k}: field {i} model={got.getD i 0} impl={g i}"
+    k := k + 1
+  return .ok nontrivial
 
 end Driver
